@@ -87,6 +87,43 @@ var statementTexts = []string{
 	"SHOW DATABASES; SHOW MEASUREMENTS",
 }
 
+// mixedStatementTexts: multi-statement queries and multi-source SELECTs that mix parts naming a
+// database explicitly (`db..m`, `ON db`) with unqualified parts (which touch the request's db),
+// in both orders — the authorization of one part must not depend on its neighbours.
+func mixedStatementTexts() []string {
+	var atoms []string
+	for _, db := range []string{"db0", "db1"} {
+		atoms = append(atoms, "SELECT * FROM "+db+"..m", "SHOW MEASUREMENTS ON "+db, "SHOW TAG KEYS ON "+db, "DROP RETENTION POLICY rpx ON "+db)
+	}
+	atoms = append(atoms, "SELECT * FROM m", "SHOW MEASUREMENTS", "DROP SERIES FROM m", "DELETE FROM m", "SELECT mean(v) INTO t FROM m")
+	var out []string
+	for _, a := range atoms {
+		for _, b := range atoms {
+			if a != b {
+				out = append(out, a+"; "+b)
+			}
+		}
+	}
+	srcs := []string{"db0..m", "db1..m", "m", "db0.autogen.m2", "(SELECT v FROM db1..m)", "(SELECT v FROM m)"}
+	for _, a := range srcs {
+		for _, b := range srcs {
+			if a != b {
+				out = append(out, "SELECT v FROM "+a+", "+b)
+			}
+		}
+	}
+	out = append(out,
+		"SELECT mean(v) INTO t FROM db1..m",
+		"SELECT mean(v) INTO db1..t FROM m",
+		"SELECT mean(v) INTO t FROM db0..m, m",
+		"SHOW MEASUREMENTS ON db1; SELECT * FROM m; SHOW TAG KEYS ON db0",
+		"SELECT * FROM m; SHOW MEASUREMENTS ON db1; SELECT * FROM m",
+		"SHOW TAG KEYS ON db1; DROP SERIES FROM m; SELECT * FROM db0..m",
+		"SELECT * FROM db1..m; SELECT * FROM db0..m; DELETE FROM m",
+	)
+	return out
+}
+
 func parseQuery(text string) (*influxql.Query, error) {
 	p := influxql.NewParser(strings.NewReader(text))
 	defer p.Release()
@@ -101,6 +138,7 @@ type stmtDesc struct {
 	// what the statements require, for the specification's verdict
 	privs [][]influxql.ExecutionPrivilege
 	kinds []string
+	mixed bool // from mixedStatementTexts
 }
 
 func describe(text string) (*stmtDesc, error) {
